@@ -114,13 +114,20 @@ def sorted_pos_instances(u, res, b, ks, T):
     u.ctx.assume(AND(*fs))
 
 
-def _perm_checker(u, file, cls, direction):
+def _perm_checker(u, file, cls, direction, best=False):
     B, T = u.dims("B T")
     act = u.tensor("actions", (B, T), "i")
     td = u.td(B, locs=((B, T, 2), "f"))
+    run = lambda **kw: u.run(file, f"{cls}.check_solution_validity", td, act, **kw)
+    if best:
+        # improvement environments: the checker validates the best tour of the state (a successor array), not an action sequence
+        td = u.td(B, locs=((B, T, 2), "f"), rec_current=((B, T), "i"))
+        td.set("rec_best", act)
+        env = u.obj(file, cls, device="cpu")
+        run = lambda **kw: u.run(file, f"{cls}.check_solution_validity", td, selfobj=env, **kw)
     if direction == "sound":
         with capture_sort() as cs:
-            u.run(file, f"{cls}.check_solution_validity", td, act, asserts="record")
+            run(asserts="record")
         b = u.idx((B,), "b")
         t1, t2 = u.idx((T, T), "t1 t2")
         v = u.idx((T,), "v")
@@ -133,7 +140,17 @@ def _perm_checker(u, file, cls, direction):
         u.requires(is_permutation(u, act, B, T))
         # the sorted row is strictly increasing (ordered + distinct values) inside [0,T): lemma incr.identity gives sorted = arange
         with capture_sort(after=lambda r: incr_identity_hint(u, r[0], B, T)):
-            u.run(file, f"{cls}.check_solution_validity", td, act, asserts="prove")
+            run(asserts="prove")
+
+
+@unit("tspkopt.check.sound", file=TSP, func="TSPkoptEnv.check_solution_validity", props=("C06",))
+def _(u):
+    _perm_checker(u, TSP, "TSPkoptEnv", "sound", best=True)
+
+
+@unit("tspkopt.check.complete", file=TSP, func="TSPkoptEnv.check_solution_validity", props=("C06",))
+def _(u):
+    _perm_checker(u, TSP, "TSPkoptEnv", "complete", best=True)
 
 
 @unit("tsp.check.sound", file=TSP, func="TSPEnv.check_solution_validity", props=("C06",))
